@@ -1160,10 +1160,149 @@ class C12(PropCheck):
         return Verdict("violation", detail="history/schedule dependence: %r" % (I,), nontrivial=True, key=sx_key(c))
 
 
+class C15(EvalProp):
+    pid = "C15"
+    design_ref = "DESIGN.md section 3, C15"
+    technique = "evaluator model written once over an abstract Queryable record (parametricity by construction) + second Rust Queryable run against serde_json::Value"
+    level_text = ("The Coq model of the evaluator (Eval.v) is one Gallina definition over an abstract record of the trait's accessors: it "
+                  "cannot use anything else. The selector lemmas C11_index / C11_slice_nodes are proved for every instance. The harness "
+                  "contains a second, independent Rust implementation of Queryable (vector-backed objects, separate int/uint/float kinds); "
+                  "every generated query is evaluated by the crate's engine over both representations of the same document and the results "
+                  "(locations found by address, path strings, order) must be identical, and equal to the model's and the RFC's.")
+    level_note = "the simulation theorem between two arbitrary faithful instances is stated in Properties/C15.v; see its header for what is proved"
+    rule = ("random (query, document) pairs as programmatically built ASTs evaluated through js_path_process::<V> for the second Queryable V "
+            "and through js_path_process::<Value>; observable = (location by address, path) sequences of both; non-trivial = non-empty RFC result")
+    n_quick = 12000
+    e2e_share = 0.0
+
+    def profile(self):
+        return gen.Profile(odd_names=True, custom=True, regex=False, programmatic=True, big_ints=False)
+
+    def make_case(self, cid, q, d, meta=None):
+        return Case(cid, "EVAL", [q, d], dict(meta or {}), impl=("GEN", [q, d]))
+
+    def obs(self, items):
+        return locs(items)
+
+    def extra_checks(self, c, ans, I, M, R):
+        flags = ans.get("I", [])[2:]
+        if "same=0" in flags:
+            return "the engine gives different results over the second Queryable and over serde_json::Value for the same document"
+        return None
+
+    def known_class(self, c, ans, I, M, R, S_, K):
+        if isinstance(S_, list) and locs(S_) != locs(R) and locs(S_) == locs(I):
+            return "D1-selector-major-union"
+        if d7_applies(K):
+            return "D7-escaped-names"
+        return None
+
+
+def nest_doc(depth, leaf=("i", 1)):
+    d = leaf
+    for i in range(depth):
+        d = ("a", d) if i % 2 == 0 else ("o", (S("a"), d))
+    return d
+
+
+class C08(ParseProp):
+    pid = "C08"
+    design_ref = "DESIGN.md section 3, C08"
+    technique = "Coq theorems (evaluation has no Err path; checked i64 arithmetic stays in range; loops bounded) + isolated-worker robustness run in debug and release builds"
+    level_text = ("Coq theorems: js_path_process never takes its Err arm, for every AST, document and Queryable; every i64 operation of "
+                  "process_index/process_slice stays in range for I-JSON-range integers and arrays shorter than 2^62 (so no debug-build "
+                  "overflow panic and no release-build wrap), every array[i] is in bounds, both slice loops stop within len iterations. "
+                  "Partial by nature for the rest: panics inside pest/regex/serde_json, stack exhaustion and wall-clock time are observed by "
+                  "running arbitrary strings, near-valid mutants, extreme integers, empty/scalar/deep documents and deeply nested queries "
+                  "through every public entry point in isolated workers, in a debug build with overflow checks and in a release build.")
+    level_note = "partial: stack and time are runtime facts; unbounded recursion depth is the known finding D17 (5000 nested filters abort the process)"
+    rule = ("strings: arbitrary, single-token edits of valid sentences, integer extremes (+-(2^53-1), i64 limits, beyond), nesting sweeps of "
+            "queries (filters, parentheses, segments) and documents; programmatic ASTs with I-JSON-range integers; each through parse, the "
+            "three query entry points, reference and reference_mut, debug and release; a case is non-trivial when the string parses")
+    release_too = True
+    n_quick = 6000
+    n_thorough = 300000
+
+    def cases(self):
+        n = self.n_quick if self.tier == "quick" else self.n_thorough
+        out = []
+        docs = ["null", ("i", 1), S("s"), ("a",), ("o",), ("a", ("i", 1), ("i", 2), ("i", 3)), nest_doc(6), nest_doc(60), nest_doc(200),
+                ("a",) + tuple(("i", i) for i in range(300)), o_(a=("a", S("x"), S("xy")), b=("o",))]
+        g = gen.Gen(self.rng, gen.Profile(odd_names=True, hostile_names=True, regex=True, custom=True))
+        base = self.sentences(max(300, n // 8))
+        i = 0
+        while len(out) < n:
+            text, _ = base[i % len(base)]
+            r = self.rng.random()
+            if r < 0.45:
+                text = gen.mutate(self.rng, text)
+            elif r < 0.55:
+                text = "".join(self.rng.choice(gen.TOKEN_ALPHABET) for _ in range(self.rng.randrange(0, 14)))
+            d = self.rng.choice(docs) if self.rng.random() < 0.5 else g.doc()
+            out.append(Case("s%d" % i, "ROB", [S(text), d], {"query": text}))
+            i += 1
+        ext = [MAXI, -MAXI, MAXI - 1, 2**31, -2**31, 2**32, 2**52, 0, 1, -1]
+        big = ["9223372036854775807", "-9223372036854775808", "9223372036854775808", "-9223372036854775809", "18446744073709551616",
+               "1e308", "1e309", "-1e309", "1e-400", "9007199254740991", "-9007199254740991", "9007199254740992", "1" + "0" * 400, "0." + "0" * 400 + "1"]
+        j = 0
+        for a in ext:
+            for b in ext[:6]:
+                for q in ("$[%d:%d:%d]" % (a, b, ext[(j * 7) % len(ext)] or 1), "$[%d]" % a, "$..[%d:%d]" % (b, a), "$[?@[%d]==%d]" % (a, b), "$[::%d]" % a):
+                    out.append(Case("x%d" % j, "ROB", [S(q), self.rng.choice(docs)], {"query": q}))
+                    j += 1
+        for lit in big:
+            for q in ("$[?@==%s]" % lit, "$[?@.a<%s]" % lit, "$[%s]" % lit, "$[:%s]" % lit, "$[?length(@)==%s]" % lit):
+                out.append(Case("x%d" % j, "ROB", [S(q), self.rng.choice(docs)], {"query": q}))
+                j += 1
+        for depth in (10, 100, 400, 1000):
+            for q in ("$" + "[?@" * depth + "]" * depth, "$[?" + "(" * depth + "@.a" + ")" * depth + "]", "$" + "[0]" * depth, "$" + ".a" * depth,
+                      "$[?" + "!(" * depth + "@.a" + ")" * depth + "]", "$[?@" + "[?@" * (depth // 4) + "]" * (depth // 4) + "]", "$" + "..a" * min(depth, 100)):
+                out.append(Case("n%d" % j, "ROB", [S(q), nest_doc(8)], {"query": q[:60] + "...", "depth": depth}))
+                j += 1
+        for pat in ("(a*)*b", "(a|aa)+$", "a{1000}", "(a{1000}){1000}", "[", "(", "\\\\", "(?i)a", "\\\\p{Lu}+", "a**", "." * 2000, "(" * 300 + "a" + ")" * 300):
+            q = "$[?match(@, '%s')]" % pat
+            out.append(Case("r%d" % j, "ROB", [S(q), ("a", S("a" * 2000), S("b"), ("i", 1))], {"query": q[:80]}))
+            q = "$[?search(@, '%s')]" % pat
+            out.append(Case("r%d" % (j + 1), "ROB", [S(q), ("a", S("a" * 2000), S("b"), ("i", 1))], {"query": q[:80]}))
+            j += 2
+        # programmatically built queries with integers in the I-JSON range
+        ga = gen.Gen(self.rng, gen.Profile(odd_names=True, hostile_names=True, programmatic=True, custom=True, regex=True))
+        for k in range(n // 4):
+            q, d = ga.pair()
+            if not gen.valid_ast(q):
+                continue
+            out.append(Case("a%d" % k, "ROBAST", [q, d if self.rng.random() < 0.7 else self.rng.choice(docs)], {"ast": True}))
+        # the listed known finding: unbounded recursion depth
+        q = "$" + "[?@" * 5000 + "]" * 5000
+        out.append(Case("known_d17", "ROB", [S(q), ("a",)], {"query": "$" + "[?@" * 3 + "... x5000", "d17": True}))
+        return out
+
+    def release_may_differ(self, c, a, b):
+        # the listed finding manifests as an abort in either build
+        return bool(c.meta.get("d17")) and all(x and x[0] in ("ABORT", "TIMEOUT", "OK", "PARSE_ERR") for x in (a, b))
+
+    def judge(self, c, ans):
+        I, M = ans.get("I"), ans.get("M")
+        key = sx_key(c)
+        if not I:
+            return Verdict("violation", detail="no answer from the worker")
+        if c.meta.get("d17"):
+            if I[0] in ("ABORT", "TIMEOUT"):
+                self.count("known_D17")
+                return Verdict("known", cls="D17-unbounded-recursion", detail="5000 nested filters: %s" % I[0], nontrivial=True, key=key)
+            return Verdict("ok", detail="the D17 witness no longer aborts", nontrivial=True, key=key)
+        if I[0] in ("OK", "PARSE_ERR"):
+            self.count("impl_" + I[0])
+            if M and M[0] in ("OK", "PARSE_ERR") and M[0] != I[0]:
+                return Verdict("stale", detail="parser model disagrees: %r vs %r" % (M, I), nontrivial=I[0] == "OK", key=key)
+            return Verdict("ok", nontrivial=I[0] == "OK", key=key)
+        return Verdict("violation", detail="%s on query %r (allowed: Ok, or Err from parsing only; never a panic, abort, hang or evaluation error)" % (I[0], c.meta.get("query", c.meta)), nontrivial=True, key=key)
+
+
 def loc_plain_text(path):
     """no escape sequence, quote inside a name or control character in the path text"""
     return "\\" not in path and all(ord(ch) >= 32 for ch in path)
 
 
-REGISTRY = {"C01": C01, "C02": C02, "C03": C03, "C04": C04, "C05": C05, "C06": C06, "C07": C07, "C09": C09, "C10": C10, "C11": C11, "C12": C12, "C13": C13, "C14": C14}
+REGISTRY = {"C01": C01, "C02": C02, "C03": C03, "C04": C04, "C05": C05, "C06": C06, "C07": C07, "C08": C08, "C09": C09, "C10": C10, "C11": C11, "C12": C12, "C13": C13, "C14": C14, "C15": C15}
 NOT_YET = {}
